@@ -3,6 +3,7 @@ package seq
 import (
 	"encoding/json"
 	"fmt"
+	"os"
 	"time"
 
 	"filippo.io/sunlight/internal/ctlog"
@@ -81,6 +82,9 @@ func MakeProfile(prop string, seed uint64, tier string) *Profile {
 	if tier == "thorough" && r.Chance(1, 40) {
 		p.StartSize = 65534 + int64(r.Intn(5))
 	}
+	if v := os.Getenv("VERIF_START_SIZE"); v != "" {
+		fmt.Sscan(v, &p.StartSize) // targeted experiments only
+	}
 	p.Items = 6 + r.Intn(30)
 	p.DupPct = []int{0, 10, 30}[r.Intn(3)]
 	p.LowPct = []int{0, 20, 50}[r.Intn(3)]
@@ -149,6 +153,14 @@ func MakeProfile(prop string, seed uint64, tier string) *Profile {
 		}
 	case "C02":
 		p.DupPct = []int{10, 30, 50}[r.Intn(3)]
+		if r.Chance(1, 5) {
+			// through the real HTTP handlers: the acknowledgement is an SCT
+			p.HTTP = true
+			p.RootsW = 6
+			p.PoolSize = 0
+			p.Tag += "+http"
+			p.Items = 15 + r.Intn(25)
+		}
 	case "C06":
 		p.Instances = 2 + r.Intn(2)
 		p.Items = 10 + r.Intn(30)
@@ -202,7 +214,7 @@ func ProfileFromJSON(b []byte) (*Profile, error) {
 func (w *World) buildWorkload() {
 	p := w.prof
 	r := core.NewRand(core.Mix(w.sim.Seed, 0x17e35))
-	if p.Prop == "C09" {
+	if p.HTTP {
 		seen := map[[32]byte]bool{}
 		for k := 0; k < p.Items; k++ {
 			it := w.makeChainItem(k, r)
